@@ -34,6 +34,7 @@ func specC04() *propertySpec {
 			{"C04-R4.7", "rejected-try-leaves-no-trace: an attempt of find that may be discarded does not modify the T it is drawn from unless it aborts the test case (the verdict must not depend on discarded bits)", ruleC04R47},
 			{"C04-R4.8", "retry-in-place-only-without-bits: a Repeat action is retried inside the same (kept) step only if it has drawn nothing from the bitstream; otherwise the step is rejected and discarded", ruleC04R48},
 			{"C04-R5", "prune-removes-exactly-discards: prune removes group i only under groups[i].discard; removeGroup deletes data[g.begin:g.end] and rebases by g.end-g.begin", ruleC04R5},
+			{"C04-R6", "generators-are-not-changed-by-draws: the generator is the other argument of the draw function: a value method neither stores through nor hands out data loaded from a generator field, a package-level variable or an object captured when the generator was built, so the same bits keep producing the same values (shared with C15-R3)", ruleC15R3},
 		},
 	}
 }
@@ -924,11 +925,61 @@ func ruleC04R5(r *Run) {
 				continue
 			}
 			tail, ok := p.resolve(ap.Common().Args[1]).(*ssa.Slice)
-			if !ok || tail.Low == nil {
+			head, okH := p.resolve(ap.Common().Args[0]).(*ssa.Slice)
+			okShape := ok && okH && tail.Low != nil && tail.High == nil && head.Low == nil && head.High != nil && p.expr(head.High) == "$i" && p.expr(head.X) == "$rec.groups" && p.expr(tail.X) == "$rec.groups"
+			r.Check("(*recordedBits).removeGroup#groups", fa.Instr.Pos(), okShape, "the group list becomes groups[:i] followed by groups[j:]", "removeGroup rewrites the group list as "+p.expr(fa.Instr.(*ssa.Store).Val)+" (expected append(groups[:i], groups[j:]...)): later prune steps use wrong group boundaries and delete live bits")
+			if !okShape {
 				continue
 			}
-			jp, ok := p.resolve(tail.Low).(*ssa.Phi)
-			if !ok {
+			// the start of the kept tail: the scan index itself, or (a search helper with early return) the scan index on
+			// the edge that found a group ending outside and len(groups) where the scan ran off the end
+			var jp *ssa.Phi
+			okAlts := true
+			type lenAlt struct{ facts []rel }
+			var lenAlts []lenAlt
+			// (helper returns are unfolded, phis are not: the phi is the scan index we are looking for)
+			var unfold func(v ssa.Value, facts []rel, d int) []alt
+			unfold = func(v ssa.Value, facts []rel, d int) []alt {
+				v = p.resolve(v)
+				if c, ok := v.(*ssa.Call); ok && d < 4 {
+					if sc := c.Common().StaticCallee(); sc != nil && p.transparent(sc) && sc.Signature.Results().Len() == 1 {
+						if o := sc.Origin(); o != nil {
+							sc = o
+						}
+						var out []alt
+						for _, ret := range returnsOf(sc) {
+							out = append(out, unfold(p.res(ret, 0), append(append([]rel{}, facts...), p.facts(ret)...), d+1)...)
+						}
+						if len(out) > 0 {
+							return out
+						}
+					}
+				}
+				return []alt{{Val: v, Facts: facts}}
+			}
+			for _, a := range unfold(tail.Low, nil, 0) {
+				av := p.resolve(a.Val)
+				if ph, isPhi := av.(*ssa.Phi); isPhi {
+					if jp != nil && jp != ph {
+						okAlts = false
+					}
+					jp = ph
+					continue
+				}
+				if p.expr(av) == "builtin:len($rec.groups)" {
+					lenAlts = append(lenAlts, lenAlt{a.Facts})
+					continue
+				}
+				okAlts = false
+			}
+			if jp != nil {
+				for _, la := range lenAlts {
+					if !rel0(la.facts, p.expr(jp), ">=", "builtin:len($rec.groups)") {
+						okAlts = false
+					}
+				}
+			}
+			if jp == nil || !okAlts {
 				r.Fail("(*recordedBits).removeGroup#span", fa.Instr.Pos(), "the groups kept after the removed one start at "+p.expr(tail.Low)+", which is not a scan index")
 				continue
 			}
@@ -958,8 +1009,8 @@ func ruleC04R5(r *Run) {
 				if f.is(J, "<", "builtin:len($rec.groups)") {
 					okLen = true
 				}
-				if f.is("$rec.groups["+J+"].end", "<=", G2+".end") {
-					okEnd = true
+				if f.is("$rec.groups["+J+"].end", "<=", G2+".end") || f.is("$rec.groups["+J+"].end", "<=", "$rec.groups[$i].end") {
+					okEnd = true // (read through the copy or, before the groups are modified, directly)
 				}
 			}
 			r.Check("(*recordedBits).removeGroup#span", fa.Instr.Pos(), okInit && okStep && okLen && okEnd && nJ == 2, "the descendants of the removed group are the groups after it that end inside it (open ones included)",
@@ -1176,4 +1227,14 @@ func isIncrementOf(p *Program, v ssa.Value, ph *ssa.Phi) bool {
 	}
 	c, ok := constInt(p.resolve(bo.Y))
 	return ok && c == 1
+}
+
+// rel0: some fact is the given relation (in either orientation).
+func rel0(facts []rel, x, op, y string) bool {
+	for _, f := range facts {
+		if f.is(x, op, y) {
+			return true
+		}
+	}
+	return false
 }
